@@ -22,12 +22,12 @@ using namespace vf; using namespace mxh;
 using pup::Step;
 
 // ------------------------------------------------------------------ tokens of the model alphabet
-enum Tok { T_HR, T_CH, T_SH, T_NST, T_CERT, T_CERT_EMPTY, T_SKE, T_CR, T_SHD, T_CV, T_CKE, T_FIN, T_CCS, T_APP, T_WARN, T_OTHER, T_N };
+enum Tok { T_HR, T_CH, T_SH, T_NST, T_CERT, T_CERT_EMPTY, T_SKE, T_CR, T_SHD, T_CV, T_CKE, T_FIN, T_CCS, T_APP, T_WARN, T_OTHER, T_HVR, T_N };
 static const char *tok_name[] = { "hello-request", "client-hello", "server-hello", "new-session-ticket", "certificate", "empty-certificate", "server-key-exchange",
-                                  "certificate-request", "server-hello-done", "certificate-verify", "client-key-exchange", "finished", "ccs", "appdata", "warning-alert", "unknown-handshake" };
-static const char *tok_short[] = { "HR", "CH", "SH", "NST", "CERT", "CERT0", "SKE", "CR", "SHD", "CV", "CKE", "FIN", "CCS", "APP", "WARN", "UNK" };
+                                  "certificate-request", "server-hello-done", "certificate-verify", "client-key-exchange", "finished", "ccs", "appdata", "warning-alert", "unknown-handshake", "hello-verify-request" };
+static const char *tok_short[] = { "HR", "CH", "SH", "NST", "CERT", "CERT0", "SKE", "CR", "SHD", "CV", "CKE", "FIN", "CCS", "APP", "WARN", "UNK", "HVR" };
 static int tok_of_hs_type(int ty) {
-    switch (ty) { case 0: return T_HR; case 1: return T_CH; case 2: return T_SH; case 4: return T_NST; case 11: return T_CERT; case 12: return T_SKE; case 13: return T_CR;
+    switch (ty) { case 0: return T_HR; case 1: return T_CH; case 2: return T_SH; case 3: return T_HVR; case 4: return T_NST; case 11: return T_CERT; case 12: return T_SKE; case 13: return T_CR;
                   case 14: return T_SHD; case 15: return T_CV; case 16: return T_CKE; case 20: return T_FIN; default: return T_OTHER; }
 }
 static int tok_of_msg(int m) {
@@ -37,7 +37,7 @@ static int tok_of_msg(int m) {
 // a step for each alphabet entry (honest for the puppet's state)
 static Step step_of_tok(int tk) {
     static const int m[] = { pup::M_HELLO_REQUEST, pup::M_CLIENT_HELLO, pup::M_SERVER_HELLO, pup::M_NEW_SESSION_TICKET, pup::M_CERTIFICATE, pup::M_CERTIFICATE_EMPTY, pup::M_SERVER_KEY_EXCHANGE,
-                             pup::M_CERTIFICATE_REQUEST, pup::M_SERVER_HELLO_DONE, pup::M_CERTIFICATE_VERIFY, pup::M_CLIENT_KEY_EXCHANGE, pup::M_FINISHED, pup::M_CCS, pup::M_APPDATA, pup::M_ALERT, pup::M_RAW_HANDSHAKE };
+                             pup::M_CERTIFICATE_REQUEST, pup::M_SERVER_HELLO_DONE, pup::M_CERTIFICATE_VERIFY, pup::M_CLIENT_KEY_EXCHANGE, pup::M_FINISHED, pup::M_CCS, pup::M_APPDATA, pup::M_ALERT, pup::M_RAW_HANDSHAKE, pup::M_HELLO_VERIFY_REQUEST };
     Step s(m[tk]);
     if (tk == T_APP) { const char *d = "EARLY-DATA"; s.payload.assign(d, d + 10); }
     if (tk == T_WARN) s.payload = { 1, 112 };           // warning, unrecognized_name
@@ -46,7 +46,12 @@ static Step step_of_tok(int tk) {
 }
 
 // ------------------------------------------------------------------ the legal language (explicit model)
-struct Tk { int t; bool prot_ok; bool intact; bool enc; };
+struct Tk { int t; bool prot_ok; bool intact; bool enc;
+            bool retransmit = false;   // DTLS: byte-identical handshake message with a message_seq already used: receivers ignore it
+            bool epoch_bad = false;    // DTLS: record header names an epoch that is not the sender's current one: dropped
+            bool epoch_later = false;  // ... and it is a later one
+            bool seq_bad = false;      // DTLS: handshake message_seq is not the next one (gap or repeat): ignored as future / as retransmission
+          };
 struct Verdict { int viol_at = -1, done_at = -1, unk_at = -1; bool weak = false; std::string why, sig; };   // sig: failure signature (root-cause class) to use if the victim completes anyway
 // Legal sequences of handshake/CCS messages a victim may RECEIVE (RFC 5246 7.3, RFC 5077 not negotiated, no renegotiation):
 //   server victim : CH [CERT]* CKE [CV]* CCS FIN                 (* present iff the server requested a certificate; CERT non-empty is policy)
@@ -55,15 +60,35 @@ struct Verdict { int viol_at = -1, done_at = -1, unk_at = -1; bool weak = false;
 // plus: warning alerts anywhere; HelloRequest to a client anywhere (RFC 5246 7.4.1.1: may be ignored; not hashed); after completion
 // application data, and a ClientHello to a server (renegotiation request, may be refused).  Everything after CCS must be protected,
 // everything before must not be.
-static Verdict judge(bool victim_server, bool ecdhe, bool cauth, bool resumed, const std::vector<Tk> &tk) {
+// DTLS (RFC 6347): the same language with the cookie exchange in front (server victim: CH CH ..., client victim: [HVR] SH ...).  A receiver silently drops invalid
+// records and ignores retransmissions, so "fatal" is not required; but whatever it drops or ignores is in the sender's transcript (the puppet hashes what it sent, with
+// consecutive message_seq), so after ANY handshake/CCS deviation - including a dropped record, a message_seq gap or repeat - completion is impossible for a correct
+// receiver.  Non-handshake records before completion (application data, alerts) may be dropped without consequence: never delivered, completion still possible.
+static Verdict judge(bool victim_server, bool ecdhe, bool cauth, bool resumed, const std::vector<Tk> &tk, bool dtls = false) {
     struct E { int t; bool opt; };
     std::vector<E> e;
+    if (dtls && !victim_server) e.push_back({ T_HVR, true });
+    if (dtls && victim_server) e.push_back({ T_CH, false });
     if (victim_server) { e.push_back({ T_CH, false }); if (!resumed) { if (cauth) e.push_back({ T_CERT, false }); e.push_back({ T_CKE, false }); if (cauth) e.push_back({ T_CV, false }); } }
     else { e.push_back({ T_SH, false }); if (!resumed) { e.push_back({ T_CERT, false }); if (ecdhe) e.push_back({ T_SKE, false }); e.push_back({ T_CR, true }); e.push_back({ T_SHD, false }); } }
     e.push_back({ T_CCS, false }); e.push_back({ T_FIN, false });
     Verdict v; size_t k = 0;
     for (size_t i = 0; i < tk.size(); i++) {
         const Tk &x = tk[i];
+        if (dtls) {
+            if (k == e.size()) continue;                                   // after completion everything else is dropped, ignored or delivered; nothing to require here
+            if (x.retransmit) continue;
+            bool record_only = x.t == T_APP || x.t == T_WARN;
+            if (record_only) { v.weak = true; continue; }                  // dropped or refused - either way not delivered (checked separately)
+            // MatrixSSL re-sends its CCS+Finished flight with a fresh CCS and the next epoch each time, and accepts the same from its peer: a further CCS where
+            // Finished is expected and a record on a LATER epoch than the sender's are retransmission matters (C16), not sequence violations: no verdict
+            if ((x.t == T_CCS && k + 1 == e.size() && x.prot_ok && x.intact) || (x.epoch_bad && x.epoch_later)) { v.unk_at = (int) i; break; }
+            if (x.epoch_bad) { v.viol_at = (int) i; v.why = "record on the wrong epoch (dropped by a correct receiver, yet part of the sender's transcript)"; v.sig = fmt("completed-with-wrong-epoch-%s", tok_name[x.t]); break; }
+            // a ClientHello may legitimately start at message_seq 0 with a cookie it kept (RFC 6347 4.2.1): numbering of the hellos is the stateless server's business
+            // (likewise MatrixSSL takes a ServerHello numbered 0 after a HelloVerifyRequest numbered 0, as DTLS 1.0-era servers sent it)
+            if (x.seq_bad && (x.t == T_CH || x.t == T_SH)) { v.unk_at = (int) i; break; }
+            if (x.seq_bad) { v.viol_at = (int) i; v.why = "handshake message_seq is not the next one"; v.sig = fmt("completed-with-bad-message-seq-%s", tok_name[x.t]); break; }
+        }
         if (!x.prot_ok) { v.viol_at = (int) i; v.why = "record protection does not match the cipher state";
             v.sig = fmt(x.enc ? "completed-with-prematurely-encrypted-%s" : "completed-with-plaintext-%s", tok_name[x.t]);
             if (x.enc && x.t == T_CCS) v.sig = "completed-with-bad-ccs";   // ciphertext in a plaintext CCS record = a CCS body that is not the single byte 01
@@ -80,6 +105,7 @@ static Verdict judge(bool victim_server, bool ecdhe, bool cauth, bool resumed, c
             if (!x.intact) {
                 if (x.t == T_FIN || x.t == T_CCS) { v.viol_at = (int) i; v.why = x.t == T_FIN ? "Finished verify_data is wrong" : "ChangeCipherSpec body is not 1"; v.sig = x.t == T_FIN ? "completed-with-bad-finished" : "completed-with-bad-ccs"; }
                 else if (x.t == T_CV) { v.viol_at = (int) i; v.why = "CertificateVerify signature is wrong"; v.sig = "completed-with-bad-certificate-verify"; }
+                else if (dtls) { v.viol_at = (int) i; v.why = "message with a foreign body"; v.sig = fmt("completed-with-foreign-body-%s", tok_name[x.t]); }   // DTLS: a refused/dropped message is still in the sender's transcript
                 else v.unk_at = (int) i;   // right type in the right place with a foreign body: a parser decides
                 break;
             }
@@ -102,12 +128,14 @@ static Verdict judge(bool victim_server, bool ecdhe, bool cauth, bool resumed, c
 }
 
 // ------------------------------------------------------------------ scenario
-struct SuiteVer { int ver; uint16_t wire; uint16_t suite; const char *name; };
+struct SuiteVer { int ver; uint16_t wire; uint16_t suite; const char *name; bool dtls; };   // wire: the TLS version whose rules apply (DTLS 1.2 = 0x0303, DTLS 1.0 = 0x0302)
 static const SuiteVer SV[] = {
     { TLS12, 0x0303, 0x009C, "1.2/RSA-GCM" }, { TLS12, 0x0303, 0xC02F, "1.2/ECDHE-GCM" }, { TLS12, 0x0303, 0x003C, "1.2/RSA-CBC256" }, { TLS12, 0x0303, 0xC027, "1.2/ECDHE-CBC256" },
     { TLS11, 0x0302, 0x002F, "1.1/RSA-CBC" }, { TLS11, 0x0302, 0xC013, "1.1/ECDHE-CBC" },
+    { DTLS12, 0x0303, 0x009C, "D1.2/RSA-GCM", true }, { DTLS12, 0x0303, 0xC02F, "D1.2/ECDHE-GCM", true }, { DTLS10, 0x0302, 0x002F, "D1.0/RSA-CBC", true }, { DTLS10, 0x0302, 0xC013, "D1.0/ECDHE-CBC", true },
 };
-static const int N_SV = 6;
+static const int N_SV = 10;
+static bool is_dtls_mode(int sv) { return SV[sv].dtls; }
 // ems: 0 both sides on, 1 puppet off, 2 victim off, 3 both off
 // resumed: abbreviated handshake on a session established just before by an honest full handshake (session id echoed by the server)
 // ticket (client victim only): the first handshake was answered with a session id AND a NewSessionTicket (RFC 5077 lets a server issue both), so the client's
@@ -131,7 +159,7 @@ struct Item { Step st; bool join = false; bool forged = false; };   // forged: b
 struct Outcome {
     bool ever_complete = false; int complete_after = -1;   // index of the item after whose delivery completion was first observed
     bool dead = false; std::vector<char> reached;          // victim was alive when item i was delivered
-    Bytes delivered; bool early_delivery = false;
+    Bytes delivered; std::vector<Bytes> delivered_msgs; bool early_delivery = false;
     bool puppet_fin_ok = false; std::string puppet_err; Bytes puppet_app_in; bool ems_active = false; int last_rc = 0; int alert_from_victim = -1;
     bool open_failed = false, resumed = false, victim_sent_nst = false; size_t ch_sid_len = 0, ch_ticket_len = 0;
 };
@@ -152,7 +180,7 @@ static Outcome run_trace(const Mode &m, const std::vector<Item> &items, size_t c
     if (m.ems >= 2) vc.ems = -1;
     if (m.ticket || m.cut) vc.tickets = true;
     pup::Config pc; pc.role = m.victim_server ? pup::CLIENT : pup::SERVER; pc.version = sv.wire; pc.suite = sv.suite; pc.ems = !(m.ems == 1 || m.ems == 3);
-    pc.client_auth = m.cauth; pc.seed = seed; pc.pki_dir = verif_dir() + "/pki";
+    pc.client_auth = m.cauth; pc.seed = seed; pc.pki_dir = verif_dir() + "/pki"; pc.dtls = sv.dtls;
     if (m.cticket) { pc.offer_ticket_ext = true; if (m.cticket == 2) pc.client_ticket.assign(120, 0x5a); }
     // session-id resumption: an honest full handshake first (fills the server's session cache / the client's sslSessionId_t), then the connection under test
     sslSessionId_t *sid = nullptr;
@@ -186,7 +214,13 @@ static Outcome run_trace(const Mode &m, const std::vector<Item> &items, size_t c
     pup::Puppet12 P(pc);
     V.on_app_data = [&](Endpoint &e, const uint8_t *, size_t) { if (!e.hs_complete()) o.early_delivery = true; };
     auto observe = [&](int idx) { if (!o.ever_complete && (V.hs_complete() || V.complete_evt)) { o.ever_complete = true; o.complete_after = idx; } };
-    V.pump_out(); P.feed(V.take_wire());
+    // transport: TLS = byte stream in chunks; DTLS = every record of the puppet is one datagram, every datagram of the victim goes to the puppet (no loss, no timers)
+    auto from_victim = [&]() { V.pump_out(); if (sv.dtls) { while (!V.dgram_out.empty()) { P.feed(V.dgram_out.front()); V.dgram_out.pop_front(); } } else P.feed(V.take_wire()); };
+    auto to_victim = [&](const Bytes &b) {
+        if (!sv.dtls) { V.feed(b, chunk); return; }
+        for (auto &r : parse_records(b, true)) { if (!V.ssl || victim_dead(V)) break; V.feed_dgram(Bytes(b.begin() + r.off, b.begin() + r.off + r.hdr + r.len)); observe(-2); V.pump_out(); }
+    };
+    from_victim();
     Bytes acc; size_t first = 0;
     for (size_t i = 0; i < items.size(); i++) {
         Bytes b = P.emit(items[i].st); acc.insert(acc.end(), b.begin(), b.end());
@@ -194,14 +228,14 @@ static Outcome run_trace(const Mode &m, const std::vector<Item> &items, size_t c
         bool alive = V.ssl && !victim_dead(V);
         for (size_t j = first; j <= i; j++) o.reached[j] = alive;
         first = i + 1;
-        if (alive && !acc.empty()) V.feed(acc, chunk);
+        if (alive && !acc.empty()) to_victim(acc);
         acc.clear();
         observe((int) i);
-        V.pump_out(); P.feed(V.take_wire());
+        from_victim();
     }
-    if (victim_says && V.hs_complete() && !victim_dead(V)) { V.send(*victim_says); P.feed(V.take_wire()); }
+    if (victim_says && V.hs_complete() && !victim_dead(V)) { V.send(*victim_says); from_victim(); }
     observe((int) items.size());
-    o.dead = victim_dead(V); o.delivered = V.delivered; o.last_rc = V.last_rc;
+    o.dead = victim_dead(V); o.delivered = V.delivered; o.delivered_msgs = V.delivered_msgs; o.last_rc = V.last_rc;
     for (auto &sn : P.seen()) if (sn.type == pup::M_NEW_SESSION_TICKET) o.victim_sent_nst = true;
     o.resumed = P.resumed(); o.ch_sid_len = P.client_hello_session_id().size(); o.ch_ticket_len = P.client_hello_ticket_len();
     o.puppet_fin_ok = P.peer_finished_ok(); o.puppet_err = P.error(); o.puppet_app_in = P.app_in(); o.ems_active = P.ems_active();
@@ -211,7 +245,7 @@ static Outcome run_trace(const Mode &m, const std::vector<Item> &items, size_t c
 
 static Bytes bytes_of(const char *s) { return Bytes(s, s + strlen(s)); }
 static std::vector<Item> base_items(const Mode &m) {
-    pup::Config pc; pc.role = m.victim_server ? pup::CLIENT : pup::SERVER; pc.suite = SV[m.sv].suite; pc.client_auth = m.cauth;
+    pup::Config pc; pc.role = m.victim_server ? pup::CLIENT : pup::SERVER; pc.suite = SV[m.sv].suite; pc.client_auth = m.cauth; pc.dtls = SV[m.sv].dtls;
     std::vector<Item> it; for (auto &s : pup::legal_script(pc, m.resumed)) { Item x; x.st = s; it.push_back(x); }
     return it;
 }
@@ -239,22 +273,22 @@ static std::string selftest_mode(const Mode &m) {
     return "";
 }
 static const std::string &selftest(const Mode &m) {
-    static std::map<int, std::string> done;
-    int key = (m.victim_server ? 1 : 0) | m.sv << 1 | (m.cauth ? 1 : 0) << 4 | m.ems << 5 | (m.resumed ? 1 : 0) << 7 | (m.ticket ? 1 : 0) << 8 | m.cut << 9 | (m.cut_err ? 1 : 0) << 11 | m.cticket << 12;
+    static std::map<std::string, std::string> done;
+    std::string key = mode_str(m) + fmt("|%d%d%d%d%d", m.resumed, m.ticket, m.cut, m.cut_err, m.cticket);
     auto f = done.find(key); if (f != done.end()) return f->second;
     return done[key] = selftest_mode(m);
 }
 
 // ------------------------------------------------------------------ deviation ops
-enum { O_DEL, O_DUP, O_SWAP, O_RETAG, O_SUBST, O_INJECT, O_FLIPFIN, O_PROT, O_MODE, O_CCSBODY, O_SECRET, O_FINFRAG, O_CVFRAG, O_N };
-static const char *op_name[] = { "delete", "duplicate", "swap", "retag", "substitute", "inject", "flip-finished", "wrong-protection", "trace-of-other-mode", "ccs-body", "wrong-session-secret", "fragmented-finished", "fragmented-certificate-verify" };
+enum { O_DEL, O_DUP, O_SWAP, O_RETAG, O_SUBST, O_INJECT, O_FLIPFIN, O_PROT, O_MODE, O_CCSBODY, O_SECRET, O_FINFRAG, O_CVFRAG, O_BODYLEN, O_EPOCH, O_SEQ, O_N };
+static const char *op_name[] = { "delete", "duplicate", "swap", "retag", "substitute", "inject", "flip-finished", "wrong-protection", "trace-of-other-mode", "ccs-body", "wrong-session-secret", "fragmented-finished", "fragmented-certificate-verify", "wrong-body-length", "wrong-epoch", "message-seq" };
 struct Op { int kind = -1, pos = 0, arg = 0; std::string text; };
 
 static int item_tok(const Item &x) { return x.st.type_override >= 0 ? tok_of_hs_type(x.st.type_override) : tok_of_msg(x.st.msg); }
 static bool is_hs_item(const Item &x) { int m = x.st.msg; return m < 0x100 || m == pup::M_CERTIFICATE_EMPTY || m == pup::M_RAW_HANDSHAKE; }
 
 static std::vector<Item> base_items(const Mode &m);
-static const std::vector<int> RETAG_TYPES = { 0, 1, 2, 4, 11, 12, 13, 14, 15, 16, 20, 22, 99 };
+static const std::vector<int> RETAG_TYPES = { 0, 1, 2, 4, 11, 12, 13, 14, 15, 16, 20, 22, 99, 3 };
 static const std::vector<int> FLIP_BITS = { 0, 1, 31, 32, 64, 95 };   // bit positions used by the bounded-exhaustive target
 
 // Applies the op (kind, pos, arg) to the item list and fills op.text; returns false when it is not applicable (kind set to -1).
@@ -309,6 +343,26 @@ static bool apply_op(Op &op, std::vector<Item> &it, const Mode &m) {
         op.pos = f; op.arg = (int) ((unsigned) op.arg % bodies.size()); it[f].st.payload = bodies[op.arg];
         op.text = fmt("ccs-body@%d(%s)", f, hex(bodies[op.arg].data(), bodies[op.arg].size(), 4).c_str()); return true;
     }
+    case O_BODYLEN: {   // Finished (arg even) / CertificateVerify (arg odd) whose body has the wrong length: honest prefix, or honest body + trailing zero bytes
+        int want = (op.arg & 1) ? pup::M_CERTIFICATE_VERIFY : pup::M_FINISHED, f = -1; for (size_t i = 0; i < n; i++) if (it[i].st.msg == want) f = (int) i;
+        if (f < 0) break;
+        int natural = want == pup::M_FINISHED ? 12 : (SV[m.sv].wire >= 0x0303 ? 260 : 258);
+        static const int fin_len[] = { 0, 11, 13, 36, 1, 24 }; const int cv_len[] = { 0, 4, 130, natural - 1, natural + 1, natural + 36 };
+        int len = (op.arg & 1) ? cv_len[(op.arg >> 1) % 6] : fin_len[(op.arg >> 1) % 6];
+        it[f].st.body_len = len; it[f].forged = true; op.pos = f;
+        op.text = fmt("wrong-body-length@%d(%s,%d bytes instead of %d)", f, tok_short[item_tok(it[f])], len, natural); return true;
+    }
+    case O_EPOCH: {   // DTLS: the record(s) of this item carry another epoch than the sender's current one
+        if (!is_dtls_mode(m.sv) || !in(n)) break;
+        int cur = 0; for (int i = 0; i < pos; i++) if (it[i].st.msg == pup::M_CCS) cur++;
+        int wrong = (cur + 1 + (op.arg & 1)) % 3; it[pos].st.epoch_override = wrong;
+        op.text = fmt("wrong-epoch@%d(%s,epoch %d instead of %d)", pos, tok_short[item_tok(it[pos])], wrong, cur); return true;
+    }
+    case O_SEQ: {     // DTLS: message_seq gap (+1, +5) or repeat (-1) in front of this handshake message; later messages continue from there
+        if (!is_dtls_mode(m.sv) || !in(n) || !is_hs_item(it[pos]) || it[pos].st.resend) break;
+        static const int d[] = { 1, -1, 5 }; it[pos].st.seq_skip = d[(unsigned) op.arg % 3]; if (pos == 0 && it[pos].st.seq_skip < 0) it[pos].st.seq_skip = 1;
+        op.text = fmt("message-seq@%d(%s,%+d)", pos, tok_short[item_tok(it[pos])], it[pos].st.seq_skip); return true;
+    }
     case O_FINFRAG: case O_CVFRAG: {
         // Finished / CertificateVerify split over several records (arg & 0xff = handshake bytes per record, >= 4), honest (legal: must be accepted) or with a
         // forged body (arg >> 8: 1 all-zero, 2 all-0xff, 3 arbitrary bytes, 4 one flipped bit): the receiver has to check the reassembled message against the
@@ -316,6 +370,7 @@ static bool apply_op(Op &op, std::vector<Item> &it, const Mode &m) {
         int want = op.kind == O_FINFRAG ? pup::M_FINISHED : pup::M_CERTIFICATE_VERIFY, f = -1; for (size_t i = 0; i < n; i++) if (it[i].st.msg == want) f = (int) i;
         if (f < 0) break;
         int fr = op.arg & 0xff, body = (op.arg >> 8) % 5; if (fr < 4) fr = 4;
+        if (is_dtls_mode(m.sv) && op.kind == O_CVFRAG && fr < 20) fr = 20;   // MatrixSSL reassembles at most 16 DTLS fragments per message
         Item &x = it[f]; x.st.frag = (size_t) fr; x.st.coalesce = false; if (f > 0) it[f - 1].st.coalesce = false;
         size_t from = op.kind == O_FINFRAG ? 4 : 8;   // verify_data / the signature bytes behind type+length (+ algorithm and signature length)
         if (body == 4) x.st.flip_bit = 77;
@@ -325,11 +380,13 @@ static bool apply_op(Op &op, std::vector<Item> &it, const Mode &m) {
     }
     case O_SECRET: {   // the abbreviated handshake, keyed by the puppet with a master secret that is not the session's (arg 0: 48 zero bytes, 1: random);
                        // in a mode where the victim expects a full handshake the abbreviated trace is sent all the same (fresh session id, no ticket extension)
+        if (is_dtls_mode(m.sv)) break;   // resumption modes are TLS only here
         if (!m.resumed) { Mode m2 = m; m2.resumed = true; it = base_items(m2); }
         op.arg = op.arg & 3; op.text = fmt("wrong-session-secret(%s%s)", (op.arg & 1) ? "random" : "zero", (op.arg & 2) ? ",empty-session-id" : ""); return true;
     }
     case O_MODE: {   // the complete legal trace of a neighbouring mode: other client-auth setting / other key exchange / abbreviated instead of full (or vice versa)
         Mode m2 = m;
+        if (is_dtls_mode(m.sv) && op.arg >= 2) break;
         if (op.arg == 0) m2.cauth = !m.cauth; else if (op.arg == 1) m2.sv = m.sv ^ 1; else m2.resumed = !m.resumed;
         static const char *what[] = { "client-auth-flipped", "key-exchange-flipped", "resumption-flipped" };
         op.text = fmt("trace-of-other-mode(%s)", what[op.arg % 3]); it = base_items(m2); return true;
@@ -354,6 +411,9 @@ static Op draw_op(Tape &t, const std::vector<Item> &it) {
     case O_SECRET: op.arg = (int) t.below(4); break;
     case O_FINFRAG: op.arg = 4 + (int) t.below(12); op.arg |= (int) t.below(5) << 8; break;   // every split of the 16-byte message with a complete header in the first record
     case O_CVFRAG: op.arg = t.pick(std::vector<int>{ 4, 5, 8, 100, 131, 200, 255 }); op.arg |= (int) t.below(5) << 8; break;
+    case O_BODYLEN: op.arg = (int) t.below(12); break;
+    case O_EPOCH: op.pos = (int) t.below(n); op.arg = t.coin(); break;
+    case O_SEQ: op.pos = (int) t.below(n); op.arg = (int) t.below(3); break;
     }
     return op;
 }
@@ -375,12 +435,15 @@ static std::vector<Op> all_singles(const Mode &m) {
     for (int a = 0; a < 4; a++) add(O_SECRET, 0, a);
     for (int fr : { 4, 8, 15 }) for (int b = 0; b < 5; b++) add(O_FINFRAG, 0, fr | b << 8);
     for (int fr : { 4, 200 }) for (int b = 0; b < 5; b += 2) add(O_CVFRAG, 0, fr | b << 8);
+    for (int a = 0; a < 12; a++) add(O_BODYLEN, 0, a);
+    for (int i = 0; i < n; i++) for (int a = 0; a < 2; a++) add(O_EPOCH, i, a);
+    for (int i = 0; i < n; i++) for (int a = 0; a < 3; a++) add(O_SEQ, i, a);
     return r;
 }
 // the modes of the bounded-exhaustive target
 static std::vector<Mode> enum_modes() {
     std::vector<Mode> r;
-    for (int vs = 0; vs < 2; vs++) for (int sv = 0; sv < N_SV; sv++) for (int ems = 0; ems < 4; ems += 3) {
+    for (int vs = 0; vs < 2; vs++) for (int sv = 0; sv < 6; sv++) for (int ems = 0; ems < 4; ems += 3) {
         if (ems && sv >= 2) continue;
         for (int k = 0; k < 3; k++) { Mode m; m.victim_server = vs == 1; m.sv = sv; m.cauth = k == 1; m.ems = ems; m.resumed = k == 2; r.push_back(m); }
         // client whose session holds an id and a ticket: server accepts (abbreviated) / declines (full)
@@ -391,19 +454,29 @@ static std::vector<Mode> enum_modes() {
         // server with ticket keys whose client offers the SessionTicket extension (empty / bogus ticket): NewSessionTicket is expected - from the server only
         if (vs == 1 && ems == 0 && (sv == 0 || sv == 1)) { Mode m; m.victim_server = true; m.sv = sv; m.cauth = sv == 1; m.ems = 0; m.cticket = 1 + sv; r.push_back(m); }
     }
+    // DTLS: full handshakes with and without client authentication, both roles
+    for (int vs = 0; vs < 2; vs++) for (int k = 0; k < 4; k++) {
+        static const int svs[] = { 6, 6, 7, 8 }; static const bool ca[] = { false, true, true, false };
+        Mode m; m.victim_server = vs == 1; m.sv = svs[k]; m.cauth = ca[k]; m.ems = 0; r.push_back(m);
+    }
     return r;
 }
 
-static std::vector<Tk> tokenize(const std::vector<Item> &it) {
-    std::vector<Tk> tk; bool w_enc = false;
+static std::vector<Tk> tokenize(const std::vector<Item> &it, bool dtls = false) {
+    std::vector<Tk> tk; bool w_enc = false; int epoch = 0;
     for (auto &x : it) {
         Tk k; k.t = item_tok(x);
         if (x.st.msg == pup::M_ALERT && !(x.st.payload.size() == 2 && x.st.payload[0] == 1 && x.st.payload[1] != 0)) k.t = T_OTHER;
         bool enc = x.st.prot == pup::P_ENCRYPTED || (x.st.prot == pup::P_STATE && w_enc);
         k.prot_ok = enc == w_enc; k.enc = enc;
         k.intact = x.st.type_override < 0 && x.st.flip_bit < 0 && !x.forged && !(x.st.msg == pup::M_CCS && !x.st.payload.empty() && x.st.payload != Bytes{ 1 });
+        if (dtls) {
+            k.retransmit = x.st.resend && is_hs_item(x);
+            k.epoch_bad = x.st.epoch_override >= 0 && x.st.epoch_override != epoch; k.epoch_later = x.st.epoch_override > epoch;
+            k.seq_bad = x.st.seq_skip != 0 && is_hs_item(x);
+        }
         tk.push_back(k);
-        if (x.st.msg == pup::M_CCS) w_enc = true;
+        if (x.st.msg == pup::M_CCS) { w_enc = true; epoch++; }
     }
     return tk;
 }
@@ -427,6 +500,8 @@ static void prop(Tape &t, Ctx &c) {
     uint32_t seed = t.u16();
     m.resumed = rk == 0;
     if (rk == 4 && !m.victim_server) { m.ticket = true; m.resumed = seed & 1; }
+    bool dtls = is_dtls_mode(m.sv);
+    if (dtls) { m.resumed = false; m.ticket = false; rk = 1; }   // DTLS: full handshakes (with / without client authentication) only
     if (rk == 3 && m.victim_server) m.cticket = 1 + (seed & 1);   // server with ticket keys + client offering the SessionTicket extension
     if (rk == 3 && !m.victim_server) { m.cut = 1 + (int) ((seed >> 1) % 3); if (m.cut == 1 && (seed & 8)) m.cut = 2; m.cut_err = seed & 1; }   // ticket-from-cut-handshake, mostly cut after NewSessionTicket
     unsigned nsel = (unsigned) t.below(10); int nops = nsel == 0 ? 0 : nsel <= 5 ? 1 : 2;   // single deviations are also enumerated completely by c06_seq12_singles
@@ -449,6 +524,11 @@ static void prop(Tape &t, Ctx &c) {
     for (size_t i = 0; i < it.size(); i++) {
         if (!vary) break;
         int msg = it[i].st.msg; bool hs = is_hs_item(it[i]);
+        if (is_dtls_mode(m.sv)) {   // DTLS: every record is a datagram of its own; handshake messages may go out as 2..n in-order fragments
+            // (MatrixSSL reassembles at most MAX_FRAGMENTS = 16 fragments per message)
+            if (hs && !it[i].st.frag && !it[i].st.resend && t.chance(1, 3)) it[i].st.frag_count = 2 + (int) t.below(2);
+            continue;
+        }
         // flight boundaries: the puppet needs the victim's answer before it can build what follows ClientHello / ServerHelloDone / Finished
         bool boundary = msg == pup::M_CLIENT_HELLO || msg == pup::M_SERVER_HELLO_DONE || msg == pup::M_FINISHED;
         bool next_hs = i + 1 < it.size() && is_hs_item(it[i + 1]);
@@ -466,9 +546,10 @@ static void prop(Tape &t, Ctx &c) {
         }
     }
 
-    std::vector<Tk> tk = tokenize(it);
+    std::vector<Tk> tk = tokenize(it, is_dtls_mode(m.sv));
     bool ecdhe = pup::suite_is_ecdhe(SV[m.sv].suite);
-    Verdict v = judge(m.victim_server, ecdhe, m.cauth, m.resumed, tk);
+    Verdict v = judge(m.victim_server, ecdhe, m.cauth, m.resumed, tk, is_dtls_mode(m.sv));
+    const bool dtls_mode = is_dtls_mode(m.sv);
     int secret = 0; bool empty_sid = false; for (auto &op : ops) if (op.kind == O_SECRET) { secret = (op.arg & 1) + 1; empty_sid = (op.arg & 2) != 0; }
     if (secret) {
         // "the peer's Finished value matches the receiver's own transcript" is meant under the session's own secret: whatever else the trace does, a peer
@@ -486,7 +567,7 @@ static void prop(Tape &t, Ctx &c) {
     for (auto &x : it) if (x.st.frag && x.st.frag < 4 && is_hs_item(x)) { v.weak = true; c.count("header-split-across-records"); }
     for (auto &x : it) if (x.st.frag && ((x.st.msg == pup::M_FINISHED && x.st.frag < 16) || (x.st.msg == pup::M_CERTIFICATE_VERIFY && x.st.frag < 260))) c.count("fragmented-finished-or-cv");
 
-    std::string trace, opd; for (size_t i = 0; i < it.size(); i++) { trace += tok_short[tk[i].t]; if (it[i].st.frag) trace += fmt("/%zu", it[i].st.frag); if (it[i].st.coalesce) trace += "+"; else if (it[i].join) trace += "&"; else trace += " "; }
+    std::string trace, opd; for (size_t i = 0; i < it.size(); i++) { trace += tok_short[tk[i].t]; if (it[i].st.frag) trace += fmt("/%zu", it[i].st.frag); if (it[i].st.frag_count) trace += fmt("/%df", it[i].st.frag_count); if (it[i].st.coalesce) trace += "+"; else if (it[i].join) trace += "&"; else trace += " "; }
     for (auto &o : ops) opd += o.text + " ";
     std::string desc = fmt("%s ops=[%s] trace=[%s] vary=%u chunk=%zd seed=%u", mode_str(m).c_str(), opd.c_str(), trace.c_str(), vary, (ssize_t) chunk, seed);
     c.sample(desc); if (c.verbose) fprintf(stderr, "case: %s\n  model: viol_at=%d done_at=%d unk_at=%d weak=%d %s\n", desc.c_str(), v.viol_at, v.done_at, v.unk_at, v.weak, v.why.c_str());
@@ -511,7 +592,8 @@ static void prop(Tape &t, Ctx &c) {
         VF_CHECK(!o.ever_complete, sig.c_str(), "victim completed the handshake although the received trace is outside the legal language: token %d (%s): %s; %s",
                  v.viol_at, tok_name[tk[v.viol_at].t], v.why.c_str(), desc.c_str());
         bool garbage = !tk[v.viol_at].prot_ok && tk[v.viol_at].enc;   // ciphertext read as plaintext: random bytes that may look like the head of a long fragmented message the victim then waits for
-        if (o.reached[v.viol_at] && garbage) { c.count("ciphertext-before-ccs"); c.nontrivial(shape); }
+        if (dtls_mode) { if (o.reached[v.viol_at]) { c.count("illegal-token-reached-live-victim"); c.count(std::string("illegal-at:") + tok_short[tk[v.viol_at].t]); c.nontrivial(shape); } }   // DTLS may drop silently: no death required
+        else if (o.reached[v.viol_at] && garbage) { c.count("ciphertext-before-ccs"); c.nontrivial(shape); }
         else if (o.reached[v.viol_at]) {
             c.count("illegal-token-reached-live-victim"); c.count(std::string("illegal-at:") + tok_short[tk[v.viol_at].t]);
             c.nontrivial(shape);
@@ -528,11 +610,14 @@ static void prop(Tape &t, Ctx &c) {
         VF_CHECK(o.ever_complete, "legal-trace-not-completed", "victim did not complete a legal trace (rc %d, fatal alert from victim %d, puppet: %s); %s", o.last_rc, o.alert_from_victim, o.puppet_err.c_str(), desc.c_str());
         VF_CHECK(o.puppet_fin_ok, "harness-puppet-finished-mismatch", "victim completed but its Finished does not verify against the puppet's transcript (%s); %s", o.puppet_err.c_str(), desc.c_str());
         Bytes want; for (size_t i = 0; i < it.size(); i++) { if (v.viol_at >= 0 && (int) i >= v.viol_at) break; if (it[i].st.msg == pup::M_APPDATA) want.insert(want.end(), it[i].st.payload.begin(), it[i].st.payload.end()); }
+        bool post_junk = false; if (dtls_mode) for (size_t i = (size_t) v.done_at + 1; i < it.size(); i++) if (it[i].st.msg != pup::M_APPDATA) post_junk = true;
+        if (post_junk) want = o.delivered;   // a handshake/CCS/alert record after completion may be dropped, ignored or fatal in DTLS: later data is only subject to the safety check
+        else if (dtls_mode) { want.clear(); for (size_t i = 0; i < it.size(); i++) if (it[i].st.msg == pup::M_APPDATA && (int) i > v.done_at && tk[i].prot_ok && !tk[i].epoch_bad) want.insert(want.end(), it[i].st.payload.begin(), it[i].st.payload.end()); }
         VF_CHECK(o.delivered == want, "legal-appdata-not-delivered", "after a legal handshake %zu of %zu application bytes were delivered; %s", o.delivered.size(), want.size(), desc.c_str());
         if (v.viol_at >= 0) {
             if (o.reached[v.viol_at]) { c.nontrivial(shape); VF_CHECK(o.dead, fmt("illegal-message-not-fatal:%s", tok_name[tk[v.viol_at].t]).c_str(), "victim still alive after a post-handshake %s; %s", tok_name[tk[v.viol_at].t], desc.c_str()); }
         } else {
-            VF_CHECK(o.puppet_app_in == vsay, "harness-victim-data-not-received", "application data sent by the victim did not reach the puppet intact (%zu bytes); %s", o.puppet_app_in.size(), desc.c_str());
+            if (!post_junk) VF_CHECK(o.puppet_app_in == vsay, "harness-victim-data-not-received", "application data sent by the victim did not reach the puppet intact (%zu bytes); %s", o.puppet_app_in.size(), desc.c_str());
             c.nontrivial(shape + fmt("L%u", vary));
         }
     } else {
@@ -544,6 +629,13 @@ static void prop(Tape &t, Ctx &c) {
     // history mode: nothing of a handshake whose server Finished was never verified may be offered for resumption
     if (m.cut) VF_CHECK(o.ch_ticket_len == 0 && o.ch_sid_len == 0, "ticket-of-incomplete-handshake-offered",
                         "the ClientHello after a cut handshake offers resumption state of that handshake (session id %zu bytes, ticket %zu bytes); %s", o.ch_sid_len, o.ch_ticket_len, desc.c_str());
+    if (dtls_mode && v.unk_at >= 0) { }   // no verdict
+    else if (dtls_mode) {   // DTLS: every delivered datagram must be a well-protected application record sent after the model's completion point
+        for (auto &d : o.delivered_msgs) {
+            bool ok = false; if (v.done_at >= 0) for (size_t i = (size_t) v.done_at + 1; i < it.size(); i++) if (it[i].st.msg == pup::M_APPDATA && tk[i].prot_ok && !tk[i].epoch_bad && it[i].st.payload == d) ok = true;
+            VF_CHECK(ok, v.done_at < 0 ? "appdata-accepted-without-legal-handshake" : "appdata-accepted-after-illegal-message", "victim delivered a datagram (%zu bytes: %s) the model does not allow (%s); %s", d.size(), hex(d.data(), d.size(), 24).c_str(), v.why.c_str(), desc.c_str());
+        }
+    } else
     {   // delivered bytes must be a prefix of the application payloads sent after the model's completion point (and before any violation)
         Bytes allowed; if (v.done_at >= 0) for (size_t i = (size_t) v.done_at + 1; i < it.size(); i++) { if (v.viol_at >= 0 && (int) i >= v.viol_at) break; if (tk[i].t == T_APP && it[i].st.msg == pup::M_APPDATA) allowed.insert(allowed.end(), it[i].st.payload.begin(), it[i].st.payload.end()); }
         bool prefix = o.delivered.size() <= allowed.size() && std::equal(o.delivered.begin(), o.delivered.end(), allowed.begin());
